@@ -140,7 +140,9 @@ def _resolve_local(fn: ast.AST, e: ast.AST, deep: bool = False) -> ast.AST:
 
     def single(name: str) -> ast.AST | None:
         src = [a for a in ast.walk(fn) if isinstance(a, ast.Assign) and len(a.targets) == 1 and isinstance(a.targets[0], ast.Name) and a.targets[0].id == name]
-        return src[0].value if len(src) == 1 else None
+        if len(src) != 1 or any(isinstance(x, ast.Name) and x.id == name for x in ast.walk(src[0].value)):
+            return None  # (a rebinding in terms of itself, `path = [path]`, is not a plain temporary)
+        return src[0].value
 
     for _ in range(6):
         if isinstance(e, ast.Name):
@@ -227,6 +229,17 @@ def _namespace_freshness(ctx: Ctx, repo, ld) -> None:
             ctx.ok("ns:none", trivial=True)
         else:
             ctx.check(False, "ns:other", "loaders:ModuleLoader.load", f"module namespace from {what}", f"the module whose dict becomes the template namespace comes from {what}: not recognised as fresh per load", ld.loc(v))
+    # the fake package a loader registers in sys.modules is its own: the name is derived from
+    # the loader object (id(self)), never from something two loaders can share (the path) -
+    # otherwise the later loader replaces the earlier one's entry, and its weakref callback
+    # removes the entry the surviving loader still imports through
+    mi = repo.func("loaders:ModuleLoader.__init__")
+    pk = [a for a in ast.walk(mi.node) if isinstance(a, ast.Assign) and len(a.targets) == 1 and isinstance(a.targets[0], ast.Name) and any(isinstance(s_, ast.Subscript) and ast.unparse(s_.value) == "sys.modules" and ast.unparse(s_.slice) == a.targets[0].id for s_ in ast.walk(mi.node))]
+    ctx.need(len(pk) == 1, "ModuleLoader.__init__: the package name registered in sys.modules was not found")
+    src_txt = ast.unparse(_resolve_local(mi.node, pk[0].value, deep=True))
+    ctx.check("id(self)" in src_txt, "ns:package-per-loader", "loaders:ModuleLoader.__init__", f"package name `{src_txt[:60]}` is not derived from the loader object",
+              f"ModuleLoader registers its fake package under `{src_txt}`: the name must contain id(self); a name computed from the search path is shared by two loaders on the same directory - the second registration replaces the first, and when the second loader is collected its weakref callback pops the entry, after which the first loader raises TemplateNotFound for every template it has not imported yet",
+              mi.loc(pk[0]))
     fc = repo.func("environment:Template.from_code")
     nsdefs = [a for a in ast.walk(fc.node) if isinstance(a, ast.Assign) and any(isinstance(t_, ast.Name) and t_.id == "namespace" for t_ in a.targets)]
     ctx.check(len(nsdefs) == 1 and isinstance(nsdefs[0].value, ast.Dict), "ns:from_code", "environment:Template.from_code", "namespace is a new dict literal", "from_code must execute the code in a new dict per load", fc.loc())
